@@ -101,6 +101,14 @@ def value_ok(kind, v, got_text=None, got_obj=None):
     return False
 
 
+class _StrSub(str):
+    pass
+
+
+PTYPES = {"str": str, "vText": lambda x: __import__("icalendar").vText(x), "vCalAddress": lambda x: __import__("icalendar").vCalAddress(x),
+          "vUri": lambda x: __import__("icalendar").vUri(x), "strsub": _StrSub}
+
+
 def exp_params(pm):
     out = {}
     for n, v in pm:
@@ -166,8 +174,12 @@ def judge(case):
         P["X-VERIF-TMP"] = "secret"
         P.to_ical()
         P.to_ical(sorted=False)
-    for n, x in pm:
-        P[n] = x
+    ptypes = case.get("ptypes") or []
+    for i_, (n, x) in enumerate(pm):
+        # the same characters as a typed string (SENT-BY/DELEGATED-* take vCalAddress, ALTREP/DIR a vUri; any str subclass): the
+        # type of a parameter value does not change what is written for its characters
+        wrap = PTYPES[ptypes[i_]] if i_ < len(ptypes) else str
+        P[n] = [wrap(e) for e in x] if isinstance(x, list) else wrap(x)
     if churn:
         P.to_ical()
         if churn == "del":
@@ -424,7 +436,8 @@ def cases(draw):
     else:
         v = [draw(st.integers(1990, 2030)), draw(st.integers(1, 12)), draw(st.integers(1, 28)), draw(st.integers(0, 23)),
              draw(st.integers(0, 59)), draw(st.integers(0, 59))]
-    return {"path": path, "name": name, "params": pm, "kind": kind, "value": v, "churn": draw(st.sampled_from([None, None, None, "del", "pop", "clear"]))}
+    return {"path": path, "name": name, "params": pm, "kind": kind, "value": v, "churn": draw(st.sampled_from([None, None, None, "del", "pop", "clear"])),
+            "ptypes": [draw(st.sampled_from(["str", "str", "vText", "vCalAddress", "vUri", "strsub"])) for _ in pm]}
 
 
 INJ = ["\r", "\n", ":", ";", ",", '"', "\\", "BEGIN:VTODO", "a"]
@@ -454,7 +467,7 @@ def _sweep(i):
     if where == 0:
         return {"path": p, "name": "X-Inj", "params": [], "kind": "text", "value": s}
     if where == 1:
-        return {"path": p, "name": "X-Inj", "params": [["X-P", s]], "kind": "text", "value": "v"}
+        return {"path": p, "name": "X-Inj", "params": [["X-P", s]], "kind": "text", "value": "v", "ptypes": [["str", "vCalAddress", "vUri", "vText", "strsub"][len(s) % 5]]}
     if where == 2:
         return {"path": p, "name": "URL", "params": [], "kind": "uri", "value": s}
     return {"path": p, "name": "CATEGORIES", "params": [["X-P", [s, "z"]]], "kind": "category", "value": [s, "k"]}
